@@ -258,11 +258,10 @@ type faultyStorage struct {
 }
 
 // op numbers a storage operation, takes the crash image if this is the chosen one, and asks the
-// fault plan. It runs under stMu so that the image is a consistent cut.
+// fault plan. Every storage operation (numbering and the file I/O itself) runs under stMu, so that an
+// image — taken inline here or by Snapshot — is a consistent cut of the directory.
 func (f *faultyStorage) op(name, file string, size int, torn func(n int)) (error, int) {
 	d := f.d
-	d.stMu.Lock()
-	defer d.stMu.Unlock()
 	d.stN++
 	n := d.stN
 	if d.StSnapAt != 0 && n == d.StSnapAt && !d.StSnapDone {
@@ -326,6 +325,8 @@ type simWriter struct {
 }
 
 func (w simWriter) Write(p []byte) (int, error) {
+	w.f.d.stMu.Lock()
+	defer w.f.d.stMu.Unlock()
 	done := 0
 	err, short := w.f.op("write", w.file, len(p), func(n int) {
 		if n > len(p) {
@@ -345,6 +346,8 @@ func (w simWriter) Write(p []byte) (int, error) {
 	return n + done, e
 }
 func (w simWriter) Sync() error {
+	w.f.d.stMu.Lock()
+	defer w.f.d.stMu.Unlock()
 	if err, _ := w.f.op("sync", w.file, 0, nil); err != nil {
 		return err
 	}
@@ -358,13 +361,13 @@ type simReader struct {
 }
 
 func (r simReader) ReadAt(p []byte, off int64) (int, error) {
-	n, err := r.Reader.ReadAt(p, off)
 	d := r.f.d
+	d.stMu.Lock()
+	defer d.stMu.Unlock()
+	n, err := r.Reader.ReadAt(p, off)
 	if d.StReadBad != nil {
-		d.stMu.Lock()
 		d.stN++
 		k := d.stN
-		d.stMu.Unlock()
 		if e := d.StReadBad(int(k), r.file, off, p[:n]); e != nil {
 			d.sim.stats["stfault.readat"]++
 			return 0, e
@@ -374,13 +377,13 @@ func (r simReader) ReadAt(p []byte, off int64) (int, error) {
 }
 
 func (r simReader) Read(p []byte) (int, error) {
-	n, err := r.Reader.Read(p)
 	d := r.f.d
+	d.stMu.Lock()
+	defer d.stMu.Unlock()
+	n, err := r.Reader.Read(p)
 	if d.StReadBad != nil && n > 0 {
-		d.stMu.Lock()
 		d.stN++
 		k := d.stN
-		d.stMu.Unlock()
 		if e := d.StReadBad(int(k), r.file, -1, p[:n]); e != nil {
 			d.sim.stats["stfault.read"]++
 			return 0, e
@@ -390,6 +393,8 @@ func (r simReader) Read(p []byte) (int, error) {
 }
 
 func (f *faultyStorage) Create(fd storage.FileDesc) (storage.Writer, error) {
+	f.d.stMu.Lock()
+	defer f.d.stMu.Unlock()
 	if err, _ := f.op("create", fd.String(), 0, nil); err != nil {
 		return nil, err
 	}
@@ -407,18 +412,24 @@ func (f *faultyStorage) Open(fd storage.FileDesc) (storage.Reader, error) {
 	return simReader{r, f, fd.String()}, nil
 }
 func (f *faultyStorage) Rename(a, b storage.FileDesc) error {
+	f.d.stMu.Lock()
+	defer f.d.stMu.Unlock()
 	if err, _ := f.op("rename", a.String()+"->"+b.String(), 0, nil); err != nil {
 		return err
 	}
 	return f.Storage.Rename(a, b)
 }
 func (f *faultyStorage) Remove(a storage.FileDesc) error {
+	f.d.stMu.Lock()
+	defer f.d.stMu.Unlock()
 	if err, _ := f.op("remove", a.String(), 0, nil); err != nil {
 		return err
 	}
 	return f.Storage.Remove(a)
 }
 func (f *faultyStorage) SetMeta(a storage.FileDesc) error {
+	f.d.stMu.Lock()
+	defer f.d.stMu.Unlock()
 	if err, _ := f.op("setmeta", a.String(), 0, nil); err != nil {
 		return err
 	}
@@ -426,6 +437,13 @@ func (f *faultyStorage) SetMeta(a storage.FileDesc) error {
 }
 
 // ------------------------------------------------------------------------------------ helpers
+
+// Snapshot copies a directory while no storage operation is in progress.
+func (d *Disk) Snapshot(src, dst string) error {
+	d.stMu.Lock()
+	defer d.stMu.Unlock()
+	return CopyTree(src, dst)
+}
 
 // CopyTree copies a directory recursively (regular files and directories only).
 func CopyTree(src, dst string) error {
